@@ -166,6 +166,8 @@ type SackPeer struct {
 	TSEcr      uint32
 	ShowSynAck bool
 	ExtraOpts  []byte
+	// SynAckDelay delays the moment the SYN-ACK of the handshake reaches the capture handles
+	SynAckDelay time.Duration
 	// ExtraFlags are OR-ed into the SYN-ACK's flag byte (e.g. ECE 0x40 for an ECN-setup SYN-ACK)
 	ExtraFlags uint8
 
@@ -337,6 +339,6 @@ func (p *SackPeer) OnReadStart(w *simnet.Wire, h *simnet.Handle) {
 		p.mu.Lock()
 		p.SynAcks[h.Idx] = f
 		p.mu.Unlock()
-		w.Deliver(f, 0, nil)
+		w.Deliver(f, p.SynAckDelay, nil)
 	}
 }
